@@ -169,10 +169,86 @@ var c08Types = map[ref.CartKind][]uint8{
 
 var c08Kinds = []ref.CartKind{ref.KNone, ref.KMBC1, ref.KMBC2, ref.KMBC3, ref.KMBC5}
 
+// c08Blind: a sequence of control writes made WITHOUT looking at the windows in between, then one observation
+// of both ROM windows and the RAM window. The closure reads the windows after every write; an implementation that
+// computes its mapping lazily at read time (or caches it at write time and forgets one case) can behave
+// differently when nothing is read between two writes.
+type c08Blind struct {
+	Spec  cartSpec `json:"spec"`
+	First c08Ev    `json:"first"`
+	Depth int      `json:"depth"`
+	Path  []c08Ev  `json:"path,omitempty"` // replay: the exact sequence
+}
+
+var c08BlindVals = []uint8{0x00, 0x01, 0x0a, 0x1f, 0x20, 0x21, 0x60, 0xff}
+var c08BlindAddrs = []uint16{0x0000, 0x2000, 0x2100, 0x3000, 0x4000, 0x6000}
+
+func c08BlindCheck(l *explore.Local, _ struct{}, c c08Blind) *explore.Fail {
+	p := newCartPair(c.Spec)
+	apply := func(ev c08Ev) {
+		p.m.Map.Write(ev.A, ev.V)
+		p.mod.Write(ev.A, ev.V)
+	}
+	observe := func(path []c08Ev) *explore.Fail {
+		f := p.checkWindows(fmt.Sprintf("%d writes with no read in between", len(path)))
+		if f == nil {
+			f = p.checkRAMWindow(fmt.Sprintf("%d control writes with no read in between", len(path)))
+		}
+		if f != nil {
+			f.Msg += fmt.Sprintf(" [writes: %v]", path)
+			f.Case = c08Blind{Spec: c.Spec, Path: append([]c08Ev(nil), path...)}
+		}
+		return f
+	}
+	if c.Path != nil {
+		for _, ev := range c.Path {
+			apply(ev)
+		}
+		return observe(c.Path)
+	}
+	start := c08Snap{p.m.Map.VMBCSave(false), *p.mod}
+	path := make([]c08Ev, 0, c.Depth)
+	var fail *explore.Fail
+	var rec func(d int)
+	rec = func(d int) {
+		if d == c.Depth {
+			// rebuild the state from the start (no snapshot taken mid-sequence: taking one is not an observation,
+			// but keeping to plain writes makes the artefact exactly what was executed)
+			p.m.Map.VMBCLoad(start.impl, false)
+			ram := p.mod.RAM
+			*p.mod = start.mod
+			p.mod.RAM = ram
+			for _, ev := range path {
+				apply(ev)
+			}
+			l.Trans(len(path))
+			l.Eval(1)
+			fail = observe(path)
+			return
+		}
+		for _, a := range c08BlindAddrs {
+			for _, v := range c08BlindVals {
+				if d == 0 && (a != c.First.A || v != c.First.V) {
+					continue
+				}
+				path = append(path, c08Ev{a, v})
+				rec(d + 1)
+				path = path[:len(path)-1]
+				if fail != nil {
+					return
+				}
+			}
+		}
+	}
+	rec(0)
+	l.Outcome(uint64(c.First.A)<<8 | uint64(c.First.V) | uint64(c.Spec.Type)<<32)
+	return fail
+}
+
 func init() {
 	register("C08", "model_checking", func(c *Ctx) {
 		if c.R != nil {
-			c.R.Rule = "per cartridge (controller x declared ROM size): breadth-first closure of the controller register machine under writes of values to 14 control-region representative addresses, successors by in-place snapshot/restore of the real controller, de-duplicated on (visible page ids, model registers); after every write both ROM windows are identified through unique page signatures and compared with the documented bank arithmetic; plus 4 fixed-order sweeps of all 3584 (address,value) writes on every supported cartridge-type byte and a byte-by-byte re-read of every ROM page"
+			c.R.Rule = "per cartridge (controller x declared ROM size): breadth-first closure of the controller register machine under writes of values to 14 control-region representative addresses, successors by in-place snapshot/restore of the real controller, de-duplicated on (visible page ids, model registers); after every write both ROM windows are identified through unique page signatures and compared with the documented bank arithmetic; plus every sequence of 3 (thorough 4) control writes made without reading in between followed by one observation of the ROM and RAM windows; plus 4 fixed-order sweeps of all 3584 (address,value) writes on every supported cartridge-type byte and a byte-by-byte re-read of every ROM page"
 			c.R.Assumptions = []string{"ROM sizes up to each controller's documented maximum (ROM-only 32 KiB, MBC1/MBC3 2 MiB, MBC2 256 KiB, MBC5 8 MiB)", "synthetic images: every 16 KiB page carries its index at 4 offsets"}
 		}
 		for _, k := range c08Kinds {
@@ -208,6 +284,26 @@ func init() {
 				})
 			}
 		}
+		bdepth := 3
+		if c.Thorough() {
+			bdepth = 4
+		}
+		explore.Product(c.R, "blind-write-sequences", explore.PartOpt{
+			Bound:  fmt.Sprintf("every sequence of %d control writes from power-on with no read in between, then one observation of both ROM windows and the RAM window", bdepth),
+			Domain: "MBC1 (128 and 64 pages), MBC2, MBC3, MBC5 (512 pages) with 4 RAM banks; 6 control addresses x 8 values"},
+			func(yield func(c08Blind) bool) {
+				for _, spec := range []cartSpec{{0x03, 6, 3}, {0x03, 5, 3}, {0x06, 3, 0}, {0x13, 6, 3}, {0x1b, 8, 3}} {
+					for d := 1; d <= bdepth; d++ {
+						for _, a := range c08BlindAddrs {
+							for _, v := range c08BlindVals {
+								if !yield(c08Blind{Spec: spec, First: c08Ev{a, v}, Depth: d}) {
+									return
+								}
+							}
+						}
+					}
+				}
+			}, func() struct{} { return struct{}{} }, c08BlindCheck)
 		explore.Product(c.R, "sweeps-all-cart-types", explore.PartOpt{
 			Bound:  "4 fixed orders of all 14x256 control writes on one instance each, then every page re-read",
 			Domain: "every supported cartridge-type byte x ROM-size codes {0, 1, max} (thorough: all codes)"},
